@@ -1237,6 +1237,16 @@ def s_gen(rng, tier, malformed=False):
         desc = d_gen(rng, tier) if rng.chance(0.75) else None
         doff = rng.randint(1, 3)
         dsz = 0
+        if desc is not None and rng.chance(0.3):
+            # the text fills its area exactly (no terminator, no padding) and its last character matters: an unquoted value
+            # on a last line without a line end
+            nl = "\r\n" if desc["nl"] == "crlf" else "\n"
+            text = desc["text"] if desc["text"].endswith(nl) else desc["text"] + nl
+            base = len((text + "ddb.pad=").encode())
+            k = (-base) % 512 or 512
+            val = "".join(rng.choice("0123456789") for _ in range(k - 1)) + rng.choice("123456789")
+            desc["ddb"].append(["ddb.pad", val])
+            desc["text"] = text + "ddb.pad=" + val
         if desc is not None:
             tb = desc["text"].encode()
             dsz = (len(tb) + 511) // 512 + rng.pick([0, 0, 1])
@@ -1802,10 +1812,26 @@ class HddSuite(Suite):
 
         from dissect.hypervisor.disk import hdd
         os.makedirs(SCRATCH, exist_ok=True)
-        d = tempfile.mkdtemp(dir=SCRATCH, suffix=".hdd")
+        # one bundle path per worker process, rewritten for every case: what is exposed is what the file holds NOW.  Before
+        # the case's descriptor, the same path held another one of exactly the same length and timestamps (all digits moved
+        # by one: other sector numbers, other GUIDs), and that one was opened too.
+        d = os.path.join(SCRATCH, f"w{os.getpid()}.hdd")
+        shutil.rmtree(d, ignore_errors=True)
+        os.makedirs(d)
         try:
-            with open(os.path.join(d, "DiskDescriptor.xml"), "w", encoding="utf-8") as fh:
-                fh.write(p_xml(case, p_tree(case)))
+            import re
+            xml = p_xml(case, p_tree(case))
+            dx = os.path.join(d, "DiskDescriptor.xml")
+            with open(dx, "w", encoding="utf-8") as fh:
+                fh.write(re.sub(r"[1-8]", lambda m: str(int(m.group()) + 1), xml))
+            st = os.stat(dx)
+            try:
+                hdd.HDD(Path(d)).descriptor.storage_data.storages  # noqa: B018
+            except Exception:  # noqa: BLE001
+                pass
+            with open(dx, "w", encoding="utf-8") as fh:
+                fh.write(xml)
+            os.utime(dx, ns=(st.st_atime_ns, st.st_mtime_ns))
 
             def op():
                 desc = hdd.HDD(Path(d)).descriptor
